@@ -24,6 +24,7 @@ class ObjTable:
         self.notifies = []
         self.oneshots = []
         self.watches = []    # (index, ntx, nrx)
+        self.cells = []
 
     def add(self, spec):
         self.specs.append(spec)
@@ -63,6 +64,9 @@ def gen_objs(rng, focus, wild):
         for _ in range(rng.choice([1, 1, 1, 2])):
             ntx, nrx = rng.choice([1, 1, 2]), rng.choice([1, 1, 2, 2, 3])
             t.watches.append((t.add("h%d:%d:%d" % (rng.choice([0, 0, 5]), ntx, nrx)), ntx, nrx))
+    if want("oncecell", 0.25):
+        for _ in range(rng.choice([1, 1, 2])):
+            t.cells.append(t.add("x"))
     if not t.specs:
         t.sems.append(t.add("s1"))
     return t
@@ -147,6 +151,8 @@ def gen_program(rng, focus="mix", wild=False, max_bodies=4, max_ops=7):
                 cats += ["wtx"] * 4
             if my_wrx:
                 cats += ["wrx"] * 5
+            if t.cells:
+                cats += ["cell"] * 5
             if thandles or ahandles:
                 cats += ["join"]
             if wild:
@@ -345,6 +351,19 @@ def gen_program(rng, focus="mix", wild=False, max_bodies=4, max_ops=7):
                 else:
                     ops.append("wy%d.%d" % (w, sl))
                     wrx_live[(w, sl)] = False
+            elif c == "cell":
+                x = rng.choice(t.cells)
+                r = rng.random()
+                v = nextval[0]
+                nextval[0] += 1
+                if r < 0.4:
+                    ops.append("xi%d.%d.%d" % (x, v, rng.choice([0, 0, 1, 2])))
+                elif r < 0.55:
+                    ops.append("xt%d.%d.%d.0" % (x, v, rng.choice([0, 1, 2])))
+                elif r < 0.75:
+                    ops.append("xs%d.%d" % (x, v))
+                else:
+                    ops.append("xg%d" % x)
             elif c == "join":
                 if thandles and (not ahandles or rng.random() < 0.5):
                     h = thandles.pop(0)
@@ -464,7 +483,7 @@ def static_ok(case):
             # objects of the right kind
             objarg = {"sd": "c", "bs": "c", "ts": "c", "dt": "c", "rc": "c", "br": "c", "tr": "c", "cr": "c", "dr": "c", "ci": "c",
                       "ac": "s", "ta": "s", "ad": "s", "sc": "s", "si": "s", "lk": "m", "tl": "m", "rd": "w", "wr": "w", "tR": "w", "tW": "w",
-                      "nf": "n", "no": "n", "na": "n", "dg": "w", "oi": "o", "ws": "h", "wm": "h", "wp": "h", "wx": "h", "wl": "h", "wi": "h", "wb": "h", "wu": "h",
+                      "nf": "n", "no": "n", "na": "n", "dg": "w", "oi": "o", "xs": "x", "xg": "x", "xi": "x", "xt": "x", "ws": "h", "wm": "h", "wp": "h", "wx": "h", "wl": "h", "wi": "h", "wb": "h", "wu": "h",
                       "wh": "h", "wc": "h", "wf": "h", "wy": "h", "wn": "h", "os": "o", "or": "o", "ot": "o", "oc": "o", "ox": "o", "oy": "o"}
             if pre in objarg:
                 i = int(args[0])
